@@ -1,6 +1,7 @@
 package main
 
 import (
+	"go/ast"
 	"encoding/json"
 	"flag"
 	"fmt"
@@ -36,6 +37,8 @@ func main() {
 		os.Exit(cmdSelftest(os.Args[2:]))
 	case "sweep":
 		os.Exit(cmdSweep(os.Args[2:]))
+	case "ordinals":
+		os.Exit(cmdOrdinals(os.Args[2:]))
 	default:
 		usage()
 	}
@@ -585,4 +588,53 @@ func kindServes(prop string, ob *Oblig) bool {
 		return ob.clause != nil && hasProp(ob.clause.ownProps, "C19")
 	}
 	return true
+}
+
+// cmdOrdinals prints the loop#n / if#n / closure#n ordinals of a function (a help for writing contracts).
+func cmdOrdinals(args []string) int {
+	fs := flag.NewFlagSet("ordinals", flag.ExitOnError)
+	repo := fs.String("repo", "/repo", "")
+	fn := fs.String("func", "", "substring of the function's full name")
+	fs.Parse(args)
+	prog, err := loadProgram(*repo, repoPkgPatterns, nil)
+	if err != nil {
+		fmt.Println(err)
+		return 2
+	}
+	var keys []string
+	for k := range prog.funcs {
+		if strings.HasPrefix(k, repoModule) || strings.HasPrefix(k, "(*"+repoModule) || strings.HasPrefix(k, "("+repoModule) {
+			if strings.Contains(k, *fn) {
+				keys = append(keys, k)
+			}
+		}
+	}
+	sort.Strings(keys)
+	for _, k := range keys {
+		fi := prog.funcs[k]
+		if fi.decl.Body == nil {
+			continue
+		}
+		fmt.Println(k)
+		line := func(n ast.Node) int { return prog.fset.Position(n.Pos()).Line }
+		first := func(n ast.Node) string {
+			var sb strings.Builder
+			printNode(&sb, prog.fset, n)
+			t := strings.Join(strings.Fields(sb.String()), " ")
+			if len(t) > 90 {
+				t = t[:90] + "…"
+			}
+			return t
+		}
+		for i, l := range loopsOf(fi.decl.Body) {
+			fmt.Printf("  loop#%d line %d: %s\n", i+1, line(l), first(l))
+		}
+		for i, s := range ifsOf(fi.decl.Body) {
+			fmt.Printf("  if#%d line %d: if %s\n", i+1, line(s), first(s.Cond))
+		}
+		for i, c := range closuresOf(fi.decl.Body) {
+			fmt.Printf("  closure#%d line %d\n", i+1, line(c))
+		}
+	}
+	return 0
 }
